@@ -129,6 +129,12 @@ def label_sites(db: DB, modname: str):
             if n.func.attr in ("find_str", "find_int") and len(n.args) == 2 and \
                     isinstance(n.args[1], ast.Constant):
                 out.append((n, n.args[1].value, n.func.attr))
+        if isinstance(n, ast.Compare) and len(n.ops) == 1 and isinstance(n.ops[0], (ast.In, ast.NotIn)) and \
+                isinstance(n.left, ast.Attribute) and n.left.attr == "data" and \
+                isinstance(n.comparators[0], (ast.Set, ast.Tuple, ast.List)):
+            for x in n.comparators[0].elts:
+                if isinstance(x, ast.Constant) and isinstance(x.value, str):
+                    out.append((n, x.value, "data-compare"))
         if isinstance(n, ast.Compare) and len(n.ops) == 1 and len(n.comparators) == 1:
             l, r = n.left, n.comparators[0]
             for a, b in ((l, r), (r, l)):
@@ -387,53 +393,65 @@ def _check_sign(db: DB, rep: Report, f) -> None:
 
 
 def _check_range(db: DB, rep: Report) -> None:
+    """Every value that can be stored as a level's instance count is either the
+    constant 1 (not under the 'multiple' test) or int(<second child of the name
+    tree>) + 1 under the 'multiple' test."""
     f = db.func("teaal.parse.arch.Architecture.__init__")
     fn = f.node
+    defs = paths.single_assignments(fn)
+    tree_names = {k for k, v in defs.items() if "LevelParser" in norm(v) or "parse" in paths.called_names([v])}
+    stores = [n for n in walk_no_nested(fn) if isinstance(n, ast.Assign) and
+              isinstance(n.targets[0], ast.Subscript) and isinstance(n.targets[0].slice, ast.Constant)
+              and n.targets[0].slice.value == "num"]
+    if not stores:
+        raise AnalysisError("no store of a level's instance count (['num']) in Architecture.__init__")
+
+    def lits(node: ast.AST) -> Set[str]:
+        """'single'/'multiple' literals the node is positively guarded by"""
+        out = set()
+        for t, pol in paths.guards(node, stop=fn):
+            for a, p in paths.conjuncts(t, pol):
+                if isinstance(a, ast.Compare) and isinstance(a.left, ast.Attribute) and a.left.attr == "data" \
+                        and len(a.ops) == 1 and isinstance(a.comparators[0], ast.Constant):
+                    eq = isinstance(a.ops[0], ast.Eq)
+                    if eq == p:
+                        out.add(a.comparators[0].value)
+        return out
+
+    def multiple_form(v: ast.AST, at: ast.AST) -> bool:
+        if isinstance(v, ast.BinOp) and isinstance(v.op, ast.Add):
+            for a, b in ((v.left, v.right), (v.right, v.left)):
+                if _const_int(b) == 1 and isinstance(a, ast.Call) and isinstance(a.func, ast.Name) and \
+                        a.func.id == "int" and a.args:
+                    src = paths.resolve_flow(a.args[0], at, fn, depth=1)
+                    if isinstance(src, ast.Subscript) and _const_int(src.slice) == 1 and \
+                            isinstance(src.value, ast.Attribute) and src.value.attr == "children" and \
+                            isinstance(src.value.value, ast.Name) and src.value.value.id in tree_names:
+                        return True
+        return False
+    cands = []     # (literal guards, value expr, statement)
+    for st in stores:
+        if isinstance(st.value, ast.Name):
+            for d, val in paths.defs_of(fn, st.value.id):
+                if val is not None and isinstance(d, (ast.Assign, ast.AnnAssign)):
+                    cands.append((lits(d) | lits(st), val, d))
+        else:
+            cands.append((lits(st), st.value, st))
     seen = set()
-    for n in walk_no_nested(fn):
-        if not isinstance(n, ast.If):
-            continue
-        cur: Optional[ast.AST] = n
-        while isinstance(cur, ast.If):
-            t = cur.test
-            lit = None
-            tree_name = None
-            if isinstance(t, ast.Compare) and isinstance(t.left, ast.Attribute) and \
-                    t.left.attr == "data" and isinstance(t.comparators[0], ast.Constant) and \
-                    isinstance(t.ops[0], ast.Eq) and isinstance(t.left.value, ast.Name):
-                lit = t.comparators[0].value
-                tree_name = t.left.value.id
-            if lit in ("single", "multiple") and lit not in seen:
-                seen.add(lit)
-                stores = [s for s in cur.body if isinstance(s, ast.Assign) and
-                          isinstance(s.targets[0], ast.Subscript) and
-                          isinstance(s.targets[0].slice, ast.Constant) and
-                          s.targets[0].slice.value == "num"]
-                ok = False
-                txt = "no store to [\"num\"]"
-                if len(stores) == 1:
-                    v = stores[0].value
-                    txt = norm(v)
-                    if lit == "single":
-                        ok = _const_int(v) == 1
-                    else:
-                        # int(<children[1] of the name tree>) + 1 in either order
-                        defs = paths.single_assignments(fn)
-                        if isinstance(v, ast.BinOp) and isinstance(v.op, ast.Add):
-                            for a, b in ((v.left, v.right), (v.right, v.left)):
-                                if _const_int(b) == 1 and isinstance(a, ast.Call) and \
-                                        isinstance(a.func, ast.Name) and a.func.id == "int" and a.args:
-                                    src = paths.inline_locals(a.args[0], fn, defs)
-                                    want = paths.inlined_text(
-                                        ast.parse(tree_name + ".children", mode="eval").body, fn, defs)
-                                    ok = isinstance(src, ast.Subscript) and \
-                                        _const_int(src.slice) == 1 and norm(src.value) == want
-                rep.check("L6", ok, db.loc(stores[0] if stores else cur), f.short,
-                          "num:%s=%s" % (lit, txt), "level '%s' stores num = %s" % (lit, txt),
-                          "a level name of kind '%s' must store %s instances, found: %s" %
-                          (lit, "1" if lit == "single" else "int(N) + 1", txt))
-            nxt = cur.orelse
-            cur = nxt[0] if len(nxt) == 1 and isinstance(nxt[0], ast.If) else None
+    for g, val, st in cands:
+        if "multiple" in g:
+            ok = multiple_form(val, st)
+            seen.add("multiple")
+            rep.check("L6", ok, db.loc(st), f.short, "num:multiple=" + norm(val),
+                      "level 'NAME[0..N]' stores num = %s" % norm(val),
+                      "a level name of kind 'multiple' must store int(N) + 1 instances, found: %s" % norm(val))
+        else:
+            ok = _const_int(val) == 1
+            seen.add("single")
+            rep.check("L6", ok, db.loc(st), f.short, "num:single=" + norm(val),
+                      "level 'NAME' stores num = %s" % norm(val),
+                      "a plainly named level must store 1 instance, found: %s (not under the 'multiple' "
+                      "test)" % norm(val))
     if seen != {"single", "multiple"}:
         raise AnalysisError("level-name dispatch (single/multiple) not found in Architecture.__init__")
 
